@@ -15,9 +15,9 @@ CONSTANTS
  DevBackupOverwrite = FALSE
  DevNoBackup = FALSE
  DevSeqOpenEarly = FALSE
- DevLinkDirect = TRUE
+ DevLinkDirect = FALSE
  DevBackupCount = FALSE
- DevInplaceInput = FALSE
+ DevInplaceInput = TRUE
  DevRouteDiscard = FALSE
 INVARIANT NoEarlyEffect
 CHECK_DEADLOCK FALSE
